@@ -124,12 +124,14 @@ Qed.
 
 Lemma stage_host_rel D s1 s2 : D k_url_scheme = false -> rel D s1 s2 -> rrel D (stage_host s1) (stage_host s2).
 Proof.
-  intros HD []. unfold stage_host. cbv zeta. rewrite r_fhost0, r_fport0.
+  intros HD []. unfold stage_host. cbv zeta. rewrite r_fhost0, r_fport0, r_fwd0.
   destruct (truthy (fhost s2)); [|constructor; auto].
   destruct (last_opt (fhost s2)); [|reflexivity].
   destruct (has_char c_colon (fhost s2) && negb (n =? c_rbr)).
-  - destruct (rsplit1 (fhost s2) [c_colon]) as [|a [|b [|c l]]]; cbn; try reflexivity. relrec.
-  - assert (Hs : lookup k_url_scheme (set k_http_host (fhost s2) (set k_server_name (fhost s2) (env s1))) =
+  - destruct (rsplit1 (fhost s2) [c_colon]) as [|a [|b [|c l]]]; cbn; try reflexivity.
+    destruct (negb (truthy (strip a))); [reflexivity|]. relrec.
+  - destruct (negb (truthy (strip (fhost s2)))); [reflexivity|].
+    assert (Hs : lookup k_url_scheme (set k_http_host (fhost s2) (set k_server_name (fhost s2) (env s1))) =
                  lookup k_url_scheme (set k_http_host (fhost s2) (set k_server_name (fhost s2) (env s2)))).
     { apply (agree_set D k_http_host _ _ _ (agree_set D k_server_name _ _ _ r_env0)). exact HD. }
     apply rrelG_bind with (RA := agree D).
@@ -151,7 +153,7 @@ Proof.
   intros []. rewrite !stage_client_spec, r_client0.
   destruct (client s2) as [[|c0 c']|] eqn:Ec.
   - constructor; auto; congruence.
-  - cbv zeta. destruct (bad_client (c0 :: c')); [reflexivity|]. cbn [rrel rrelG]. relrec; try congruence.
+  - cbv zeta. rewrite r_fwd0. destruct (bad_client (c0 :: c')); [reflexivity|]. cbn [rrel rrelG]. relrec; try congruence.
     destruct (port_text (c0 :: c')); auto using agree_set.
   - constructor; auto; congruence.
 Qed.
